@@ -67,6 +67,10 @@ PROFILES = {
     "C13": dict(sel=lambda f: f["fl"] != "t" or f["idx"] % 5 == 0, pure=True,
                 events=["invw", "invall", "invwn", "tag", "invc"], threads=1, heavy_inval=True),
     "C14": dict(sel=lambda f: True, pure=True, events=[], threads=4),
+    "C04": dict(sel=lambda f: f["limit"] is not None and not f["inval_on"], pure=True, events=["invw", "invall", "tag"], threads=2),
+    "C06": dict(sel=lambda f: f["ttl"] is not None, pure=True, events=["tick", "invw"], threads=2),
+    "C07": dict(sel=lambda f: f["pol"] in ("fifo", "lru") and (f["limit"] or f["mem"]), pure=True, events=["invw", "invall"], threads=1),
+    "C08": dict(sel=lambda f: f["pol"] in ("lfu", "arc", "tlru") and (f["limit"] or f["mem"]), pure=True, events=["invw", "tick"], threads=1),
     "C15": dict(sel=lambda f: f["fl"] != "t", pure=True, events=["sget", "sreset", "sgetn", "tick", "invw"], threads=3),
     "C19": dict(sel=lambda f: True, pure=False, events=["tick", "tag", "invw", "sget"], threads=2),
     "C16": dict(sel=lambda f: True, pure=False, events=["tick", "tag", "event", "dep", "invc", "invw", "invall", "sget", "sreset"], threads=3),
